@@ -115,8 +115,8 @@ theorem memValue_spec (p : Provider) (c : Ctx) (key : String) (addr w : Nat) (hi
     refine ⟨v, c, ?_, ⟨⟨[], by simp, Fill.nil _, fun _ h => (nomatch h)⟩, rfl, rfl, hi, by rw [hlen, hw],
       h2.1 (by simp), fun ρ => by rw [hval ρ, hv ρ]⟩⟩
     unfold memValue
-    rw [h1']
-    simp only [hf]
+    rw [accessBad_false hd.2.2, h1']
+    simp only [hf, Bool.false_eq_true, if_false]
   | none =>
     obtain ⟨miss, hm1, hm2, hm3⟩ := hl.missing addr w hd
     have hm1' : c.st.mems.missing key addr w = .ok miss := hm1
@@ -149,11 +149,25 @@ theorem memValue_spec (p : Provider) (c : Ctx) (key : String) (addr w : Nat) (hi
       refine ⟨v, c1, ?_, ⟨⟨miss.map (reqOf key), g2, g3, ?_⟩, g4, g5, g6, by rw [hlen, hw], hall,
         fun ρ => by rw [hval ρ, hv ρ]⟩⟩
       · unfold memValue
-        rw [h1', hm1']
-        simp only [g1, k1', hf]
+        rw [accessBad_false hd.2.2, h1', hm1']
+        simp only [g1, k1', hf, Bool.false_eq_true, if_false]
       · intro r hr
         obtain ⟨i, hi', rfl⟩ := List.mem_map.1 hr
         have := sub_facts (hsub i hi') hd.2.1
         exact ⟨ibegin i, ilen i, rfl, this.1, this.2.2.1⟩
+
+/-- REPAIR F45: for ANY address and any width between 1 and 255, on a state satisfying the invariant `memValue`
+never panics: either the range is in the domain of C14 and the load succeeds (as `memValue_spec` says), or
+`checkAccess` stops the step — with the context untouched, before the provider is asked anything for this load -/
+theorem memValue_total (p : Provider) (c : Ctx) (key : String) (addr w : Nat) (hi : Inv c.st)
+    (ha : addr < 2 ^ 64) (hw : 1 ≤ w ∧ w ≤ 255) :
+    (InDom addr w ∧ ∃ v c', memValue p c key addr w = .ok (v, c') ∧ MemValOut p key addr w c v c') ∨
+    (2 ^ 64 ≤ addr + w ∧ memValue p c key addr w = .error (.access c addr w)) := by
+  by_cases h : addr + w < 2 ^ 64
+  · exact Or.inl ⟨⟨hw.1, hw.2, h⟩, memValue_spec p c key addr w hi ⟨hw.1, hw.2, h⟩⟩
+  · refine Or.inr ⟨by omega, ?_⟩
+    unfold memValue
+    rw [accessBad_true ha (by omega) (by omega)]
+    simp
 
 end Mltwist.Lemmas.Emulator
